@@ -77,7 +77,14 @@ PAIR_POOL = [
     "data = {'a': [1, 2]}\nfor key, value in data.items():\n    print(key + '!', value[0] + 1)\n",
     "open = 1\nprint(open)\n",
     "f = open('data.txt')\nprint(f.read())\n",
+    "opts = {}\nprint(sorted(**opts))\n",
+    "from dataclasses import dataclass\nwhat = dataclass()\n",
+    "items = [3, 1]\nprint(sorted(items), list(reversed(items)), list(filter(None, items)))\n",
 ]
+
+
+HISTORY_OTHERS = ['other_unused_name = 1\n', 'opts = {}\nprint(sorted(**opts))\n', 'from dataclasses import dataclass\nwhat = dataclass()\n',
+                  'def f(a):\n    return f(a)\nf(1)\n', 'print(reversed(**{}))\nprint(filter())\n', 'x = (1\n']
 
 
 def judge_pair(case):
@@ -158,7 +165,10 @@ def judge(case):
         viol.append(V('C18|raises-on-repeat:%s' % type(e).__name__, 'second tifa_analysis raised %r' % e))
     try:
         # history: another program first, then this one twice in the same report
-        _, rep2 = analyse_fresh('other_unused_name = 1\n')
+        # ... including programs on which the analysis itself fails half-way (inside the definition of a builtin, of a decorator)
+        import zlib
+        other = HISTORY_OTHERS[zlib.crc32(code.encode('utf8', 'replace')) % len(HISTORY_OTHERS)]
+        _, rep2 = analyse_fresh(other)
         ra = tifa_analysis(code)
         n_a = len(rep2.feedback) + len(rep2.ignored_feedback)
         rb = tifa_analysis(code)
